@@ -17,6 +17,22 @@ pub struct WakerState {
 static NEXT_ID: AtomicU64 = AtomicU64::new(1);
 pub static TOTAL_WAKES: AtomicU64 = AtomicU64::new(0);
 
+/// Called from every wake: the kernel keeps running while a10 is inside
+/// `Ring::poll` (a waker that makes a system call, a kernel thread, another CPU).
+static ON_WAKE: std::sync::atomic::AtomicPtr<()> = std::sync::atomic::AtomicPtr::new(std::ptr::null_mut());
+
+pub fn set_on_wake(f: Option<fn()>) {
+    ON_WAKE.store(f.map(|f| f as *mut ()).unwrap_or(std::ptr::null_mut()), Ordering::SeqCst);
+}
+
+fn on_wake() {
+    let p = ON_WAKE.load(Ordering::SeqCst);
+    if !p.is_null() {
+        let f: fn() = unsafe { std::mem::transmute(p) };
+        f();
+    }
+}
+
 pub fn new_waker() -> (Waker, Arc<WakerState>) {
     let state = Arc::new(WakerState {
         id: NEXT_ID.fetch_add(1, Ordering::Relaxed),
@@ -50,6 +66,8 @@ unsafe fn wake(p: *const ()) {
     arc.wakes.fetch_add(1, Ordering::SeqCst);
     arc.live.fetch_sub(1, Ordering::Relaxed);
     TOTAL_WAKES.fetch_add(1, Ordering::Relaxed);
+    drop(arc);
+    on_wake();
 }
 
 unsafe fn wake_by_ref(p: *const ()) {
@@ -57,6 +75,7 @@ unsafe fn wake_by_ref(p: *const ()) {
     arc.wakes.fetch_add(1, Ordering::SeqCst);
     TOTAL_WAKES.fetch_add(1, Ordering::Relaxed);
     std::mem::forget(arc);
+    on_wake();
 }
 
 unsafe fn drop_waker(p: *const ()) {
